@@ -185,6 +185,25 @@ class SqlalchemyKind(Kind):
         return ("class Base(orm.DeclarativeBase):\n    pass\nclass Model(Base):\n    __tablename__ = f'm_{N}'\n" + "".join(lines))
 
 
+class SqlalchemyRenamedKind(SqlalchemyKind):
+    """the columns carry explicit names that differ from the mapped attributes (mapped_column("col_a", ...)): the logical field is
+    the attribute"""
+    name = "sqlalchemy_renamed_columns"
+
+    def source(self, shape, names, with_log=False):
+        lines = []
+        for i, (n, a, req, d) in enumerate(self._fields(shape, names)):
+            args = [repr(f"col_{i}")]
+            if a == "Any":
+                args.append("sa.JSON")
+            if i == 0:
+                args.append("primary_key=True, autoincrement=False")
+            if not req:
+                args.append(f"default={d!r}")
+            lines.append(f"    {n}: orm.Mapped[{a}] = orm.mapped_column({', '.join(args)})\n")
+        return ("class Base(orm.DeclarativeBase):\n    pass\nclass Model(Base):\n    __tablename__ = f'm_{N}'\n" + "".join(lines))
+
+
 def _defaults_last(shape) -> Optional[str]:
     seen_opt = False
     for f in shape:
@@ -262,6 +281,6 @@ class TypedDictInheritedKind(TypedDictKind):
 MAIN_KINDS = [DataclassKind(), NamedTupleKind(), TypedDictKind(), TypedDictTotalFalseKind(), AttrsKind(), PydanticKind(), SqlalchemyKind()]
 # other ways to declare the same logical model in the same kinds: each program meets some of them (chosen by its hash)
 VARIANT_KINDS = [DataclassPositionalKind(), DataclassInheritedKind(), AttrsPositionalKind(), AttrsInheritedFrozenKind(), PydanticInheritedKind(),
-                 TypedDictInheritedKind()]
+                 TypedDictInheritedKind(), SqlalchemyRenamedKind()]
 KINDS = MAIN_KINDS + VARIANT_KINDS
 BY_NAME = {k.name: k for k in KINDS}
